@@ -208,6 +208,9 @@ def run_structure(s):
             good = {0: {"X": (None, (1, "X", False))}, 1: {"X": ((0, "X", False), None)}}
             for name, fc, should in (("two-face-dimensions", {"face": SymTable(good), "tile": SymTable(good)}, False),
                                      ("face-dimension-absent", {"nosuchdim": SymTable(good)}, False),
+                                     ("two-face-dimensions-second-absent", {"face": SymTable(good), "nosuchdim": SymTable(good)}, False),
+                                     ("two-face-dimensions-first-absent", {"nosuchdim": SymTable(good), "face": SymTable(good)}, False),
+                                     ("two-face-dimensions-both-absent", {"nosuchdim": SymTable(good), "other": SymTable(good)}, False),
                                      ("one-existing-face-dimension", {"face": SymTable(good)}, True)):
                 try:
                     g = mkgrid(w, fc, 2)
@@ -358,6 +361,26 @@ def replay(ob):
         return {"confirmed": bool(c), "text": json.dumps(c, default=str)}
     s = wit["structure"]
     m = wit.get("model", {})
+    if s.get("part") == "facedims":
+        import warnings
+
+        import numpy as np
+        import xarray as xr
+        import xgcm
+        warnings.simplefilter("ignore")
+        good = {0: {"X": (None, (1, "X", False))}, 1: {"X": ((0, "X", False), None)}}
+        ds = xr.Dataset(coords={"x_c": np.arange(3), "x_l": np.arange(3), "face": np.arange(2), "tile": np.arange(3)})
+        cases = {"two-face-dimensions": ({"face": good, "tile": good}, False), "face-dimension-absent": ({"nosuchdim": good}, False),
+                 "two-face-dimensions-second-absent": ({"face": good, "nosuchdim": good}, False), "two-face-dimensions-first-absent": ({"nosuchdim": good, "face": good}, False),
+                 "two-face-dimensions-both-absent": ({"nosuchdim": good, "other": good}, False), "one-existing-face-dimension": ({"face": good}, True)}
+        name = ob["id"].rsplit("/", 1)[-1].split(":")[1]
+        fc, should = cases[name]
+        try:
+            xgcm.Grid(ds, coords={"X": {"center": "x_c", "left": "x_l"}}, periodic=False, face_connections=fc, autoparse_metadata=False)
+            ok = True
+        except Exception as e:  # noqa
+            ok = False
+        return {"confirmed": ok != should, "text": f"Grid(ds with dims face, tile; face_connections with keys {list(fc)}): {'accepted' if ok else 'refused'}; the statement prescribes {'acceptance' if should else 'refusal'}"}
 
     def val(name, dflt):
         return m.get(name, dflt)
